@@ -341,6 +341,47 @@ class FiltV:
         return f"<filtered {' & '.join(norm(c[0])[:50] for c in self.conds)}>"
 
 
+def _filt_of(atom: ast.AST, snap: Env):
+    """the filtered list L when atom is  x in L  /  x not in L  with L bound to a FiltV in the snapshot"""
+    if isinstance(atom, ast.Compare) and len(atom.ops) == 1 and isinstance(atom.ops[0], ast.In) and isinstance(atom.comparators[0], ast.Name):
+        v = snap.vars.get(atom.comparators[0].id)
+        if isinstance(v, FiltV):
+            return v
+    return None
+
+
+def expand_dnf(cond: ast.AST, snap: Env, depth: int = 0) -> list[list[tuple[ast.AST, Env]]]:
+    """disjunctive normal form of a filter condition as lists of (atom, environment); membership in another filtered list is
+    replaced by that list's own conditions"""
+    out = []
+    for conj in _dnf(cond):
+        combos: list[list[tuple[ast.AST, Env]]] = [[]]
+        for atom in conj:
+            fv = _filt_of(atom, snap) if depth < 3 else None
+            if fv is not None:
+                alts: list[list[tuple[ast.AST, Env]]] = [[]]
+                for c2, s2 in fv.conds:
+                    alts = [a + b for a in alts for b in expand_dnf(c2, s2, depth + 1)]
+                combos = [a + b for a in combos for b in alts]
+            else:
+                combos = [a + [(atom, snap)] for a in combos]
+        out += combos
+    return out
+
+
+def cond_holds(cond: ast.AST, snap: Env, facts: Facts, depth: int = 0) -> bool:
+    from ..absint import truth
+    if isinstance(cond, ast.BoolOp):
+        rs = [cond_holds(v, snap, facts, depth) for v in cond.values]
+        return all(rs) if isinstance(cond.op, ast.And) else any(rs)
+    fv = _filt_of(cond, snap) if depth < 3 else None
+    if fv is not None:
+        return all(cond_holds(c2, s2, facts, depth + 1) for c2, s2 in fv.conds)
+    e2 = snap.copy()
+    e2.facts = facts
+    return truth(e2, cond).v is True
+
+
 class ParamV:
     """another parameter of the chooser (e.g. the requested type)"""
     def __init__(self, name: str):
@@ -484,7 +525,7 @@ def filter_rule(ctx: Ctx, rid: str, require_equivalence_everywhere: bool = False
             # --- soundness: each combination of disjuncts entails d <= M - c
             combos = [[]]
             for cond, snap in lst.conds:
-                combos = [a + [(atom, snap) for atom in conj] for a in combos for conj in _dnf(cond)]
+                combos = [a + conj for a in combos for conj in expand_dnf(cond, snap)]
             for combo in combos:
                 facts = o.env.facts.copy()
                 for atom, snap in combo:
@@ -503,7 +544,7 @@ def filter_rule(ctx: Ctx, rid: str, require_equivalence_everywhere: bool = False
                 for cond, snap in lst.conds:
                     e2 = snap.copy()
                     e2.facts = facts
-                    if truth(e2, cond).v is not True:
+                    if not cond_holds(cond, snap, facts):
                         wit = None
                         if isinstance(cond, ast.Compare) and len(cond.ops) == 1:
                             a_, b_ = evaluate(e2, cond.left), evaluate(e2, cond.comparators[0])
